@@ -467,7 +467,7 @@ def c18_replay(run, content):
             print(repr(p[-600:]))
     return {'evaluations': 1, 'distinct_nontrivial': 2, 'samples': ['replay'], 'disagreements': [], 'oracle_failures': [], 'rule': 'replay'}
 
-spec('C18', correspond=c18_correspond, replay=c18_replay, modules=['C18'], plain=True,
+spec('C18', correspond=c18_correspond, replay=c18_replay, modules=['C18', 'C18b'], plain=True,
      search=lambda run, rng, d: c18_correspond(run, random.Random(rng.random()), 'quick')['oracle_failures'],
      trusted=['std::io::BufReader::read_line as modelled (fill one chunk, scan for newline, consume)', 'UTF-8 decoding', 'the correspondence check'],
      assumptions=['the OS delivers non-empty reads before end of input', 'OS batching, process start-up and exit are runtime behaviour: exercised, not proved',
@@ -482,8 +482,9 @@ def c13_tree(rng, depth=0):
     k = rng.random()
     if depth >= 4 or k < 0.45:
         a = rng.random()
-        if a < 0.35: return ('int', rng.choice([0, 1, 2, -1, 7, 2**62]))
-        if a < 0.55: return ('chr', rng.choice('abcx'))
+        # (numbers and characters share values on purpose: 97 is the code point of a, 49 of the digit 1)
+        if a < 0.35: return ('int', rng.choice([0, 1, 2, -1, 7, 2**62, 97, 98, 99, 49, 120]))
+        if a < 0.55: return ('chr', rng.choice('abcx1'))
         if a < 0.8: return ('sym', rng.choice(PLAIN_SYMS))
         if a < 0.9: return ('str', ''.join(rng.choice('ab') for _ in range(rng.randint(0, 3))))
         return ('nil',)
@@ -845,6 +846,8 @@ def heap_oracle(sess, resp, growth_check=True):
             max_live = max(max_live, last_reach + since)
         if req == 'h inv' and r != 'ok':
             failures.append({'at': j, 'request': req, 'problem': f'heap invariant broken: {r}'})
+        if req == 'audit' and not r.startswith('ok'):
+            failures.append({'at': j, 'request': req, 'problem': f'a handle exists that belongs neither to a slot of the client nor to a definition (or a definition without its handle): {r}'})
         if req == 'h snap':
             problems, used, reach, n = snapshot_reachability(r)
             for p in problems:
@@ -1198,10 +1201,52 @@ def c19_correspond(run, rng, tier):
              # afterwards: the interpreter accepts the next evaluation and still has its definitions
              'eval ' + hexs("(list (add 1 2) (type-of foldl) (get-current-module))")]
         sessions.append(s)
+    # programs BLOCKED waiting for input: standard input times out (scripted time-outs, chunk f8) before the line is complete —
+    # nothing typed yet, or half a line typed — and the debugger sends its command while the evaluation waits
+    input_cases = []
+    for prog_name, prog in [('plain', "(list 'got (input-file *stdin*))"),
+                            ('trapped', "(eval (trap (list 'got (input-file *stdin*)) (list 'trapped (. *trapped-signal* 'kind))))"),
+                            ('catch-all', "(try (list 'got (input *stdout*)) (catch-all (lambda (e) (list 'handled (. e 'kind)))))")]:
+        for before in ('', '6162', '61,62', '2861646420'):
+            for n_timeouts in (1, 2, 3):
+                for cmd in ('INTERRUPT', 'ABORT', 'STEP-IN', None):
+                    chunks = [c for c in before.split(',') if c] + ['f8'] * n_timeouts + ['630a', '640a']
+                    input_cases.append((prog_name, prog, before, n_timeouts, cmd, chunks))
+    for prog_name, prog, before, n_timeouts, cmd, chunks in input_cases:
+        if prog_name == 'catch-all':
+            prog = prog.replace('(input *stdout*)', '(input-file *stdin*)')
+        sessions.append(['new prelude umbilical', 'stdin ' + ','.join(chunks)] + ([f'command {hexs(cmd)} 4000000000'] if cmd else []) +
+                        ['evalstop ' + hexs(prog), 'eval ' + hexs("(list (add 1 2) (type-of foldl) (get-current-module) (input-file *stdin*))")])
     real, model = both(sessions, timeout=120)
     diffs = compare(sessions, real, model)
     failures = crash_failures(sessions, real)
     dist = {}
+    for (prog_name, prog, before, n_timeouts, cmd, chunks), r in zip(input_cases, real[len(cases):]):
+        res, _ = parse_eval(r[-2] if len(r) >= 2 else '')
+        after, _ = parse_eval(r[-1] if r else '')
+        last = res[-1] if res else None
+        key = f'input-blocked/{cmd or "none"}'
+        dist[key] = dist.get(key, 0) + 1
+        typed = bytes.fromhex(''.join(c for c in before.split(',') if c)).decode()
+        problem = None
+        if cmd == 'ABORT':
+            if last is None or last[0] != 'abort':
+                problem = f'ABORT did not end the evaluation that was blocked waiting for input: {last}'
+        elif cmd == 'INTERRUPT':
+            want = {'plain': ('sig', 'interrupted'), 'trapped': ('ok', '(trapped interrupted)'), 'catch-all': ('ok', '(handled interrupted)')}[prog_name]
+            if last is None or last[0] != want[0] or want[1] not in last[1]:
+                problem = f'INTERRUPT did not arrive as a trappable `interrupted` signal in the evaluation blocked waiting for input: {last}'
+        else:
+            line = typed + 'c\n'
+            shown = '(got "' + line + '")'         # the printer writes a newline inside a string as it is
+            if last is None or last[0] != 'ok' or last[1] != shown:
+                problem = f'without a stopping command the wait must go on and deliver the line {line!r}: {last}'
+        # afterwards the interpreter is usable, has its definitions, and standard input goes on with the next line
+        nxt = '"d\n"' if cmd not in ('INTERRUPT', 'ABORT') else '"c\n"'
+        if problem is None and (not after or after[0][0] != 'ok' or after[0][1] != f'(3 function-type default {nxt})'):
+            problem = f'after the command the interpreter is not usable / lost its definitions / lost input: {r[-1][:200] if r else r}'
+        if problem:
+            failures.append({'expression': prog, 'stdin_chunks': chunks, 'command_sent_while_blocked': cmd, 'problem': problem})
     for (name, prog, cmds), r in zip(cases, real):
         res, trailer = parse_eval(r[-2] if len(r) >= 2 else '')
         after, _ = parse_eval(r[-1] if r else '')
@@ -1225,13 +1270,13 @@ def c19_correspond(run, rng, tier):
                 problem = f'INTERRUPT did not arrive as a trappable `interrupted` signal: {last}'
         if problem:
             failures.append({'expression': prog, 'commands': cmds, 'problem': problem})
-    return {'evaluations': len(cases), 'distinct_nontrivial': len({(c[0], tuple(c[2])) for c in cases if c[0] != 'terminating'}),
-            'rule': 'programs (terminating, looping in tail position, looping through a catch-all trap, looping through nested eval+trap, blocked in receive, looping with output) x commands INTERRUPT / ABORT / ignored '
+    return {'evaluations': len(cases) + len(input_cases), 'distinct_nontrivial': len({(c[0], tuple(c[2])) for c in cases if c[0] != 'terminating'}) + len(input_cases),
+            'rule': 'programs (terminating, looping in tail position, looping through a catch-all trap, looping through nested eval+trap, blocked in receive, BLOCKED WAITING FOR INPUT with nothing or half a line typed (scripted time-outs of standard input), looping with output) x commands INTERRUPT / ABORT / ignored '
                     'x delivery at evaluator loop head k (0,1,2,3,5,10,33,100,1000 and random k) through the scripted umbilical (hook H3), followed by a second evaluation; outcome, output and debugger messages compared real vs model, '
                     'and checked against the property by a Python oracle; non-trivial = a non-terminating or blocked program',
             'samples': [f'{c[0]} with {c[2]}' for c in cases[:4]], 'disagreements': diffs, 'oracle_failures': failures, 'distribution': dist}
 
-spec('C19', correspond=c19_correspond, replay=generic_replay, modules=['C19'],
+spec('C19', correspond=c19_correspond, replay=generic_replay, modules=['C19', 'C19b'],
      search=lambda run, rng, d: c19_correspond(run, random.Random(rng.random()), 'quick')['oracle_failures'],
      trusted=['std::sync::mpsc try_recv/recv as an atomic FIFO', 'the evaluator model is tied to eval/mod.rs by differential execution', 'the correspondence check (hook H3 delivers scripted commands at loop heads)'],
      assumptions=['thread scheduling and wall-clock latency are runtime behaviour: any timing is modelled as "available from loop head k on"',
@@ -1468,22 +1513,62 @@ def c15_module_sequence(rng):
     forms, lines = body(m, {}, 0)
     return f'(load-all "{esc(" ".join(forms))}" "{m}")\n(get-current-module)', ''.join(l + '\n' for l in lines)
 
+def c15_viewer_history(rng):
+    """globals of `default` defined, undefined and defined again, looked up in between from `default` itself AND from
+    functions of another module (which see them as long as they exist); returns (program, expected results per form)"""
+    names = ['v1', 'v2', 'v3']
+    viewer = ' '.join(f'(defun see-{n} () \\"\\" (eval (trap {n} (quote unbound))))' for n in names)
+    forms = [f'(load-all "{viewer}" "viewer")']
+    expected = [('ok', 'ok')]
+    table = {}
+    for _ in range(rng.randint(6, 16)):
+        n = rng.choice(names)
+        k = rng.random()
+        if k < 0.3:
+            v = rng.randint(0, 99)
+            forms.append(f"(define '{n} {v} \"\")")
+            if n in table:
+                expected.append(('sig', 'already-defined'))
+            else:
+                table[n] = v
+                expected.append(('ok', 'ok'))
+        elif k < 0.5:
+            forms.append(f"(undefine '{n})")
+            table.pop(n, None)
+            expected.append(('ok', 'ok'))
+        elif k < 0.8:
+            forms.append(f'(see-{n})')
+            expected.append(('ok', str(table[n]) if n in table else 'unbound'))
+        else:
+            forms.append(f"(eval (trap {n} 'unbound))")
+            expected.append(('ok', str(table[n]) if n in table else 'unbound'))
+    return '\n'.join(forms), expected
+
 def c15_correspond(run, rng, tier):
     n = 600 if tier == 'quick' else 10000
     progs = [c15_history(rng) for _ in range(n)]
     mseq = [c15_module_sequence(rng) for _ in range(n // 2)]
     mprogs = [p for p, _ in mseq]
-    sessions = eval_sessions(progs + mprogs)
+    vseq = [c15_viewer_history(rng) for _ in range(n // 3)]
+    sessions = eval_sessions(progs + mprogs + [p for p, _ in vseq])
     real, model = both(sessions)
     diffs = compare(sessions, real, model)
     failures = crash_failures(sessions, real)
-    dist = {'loads': 0, 'loads-stopped': 0, 'define-existing': 0, 'aborted-forms': 0, 'module-sequences': len(mseq)}
+    dist = {'loads': 0, 'loads-stopped': 0, 'define-existing': 0, 'aborted-forms': 0, 'module-sequences': len(mseq), 'viewer-histories': len(vseq)}
     for (p, expected_out), r in zip(mseq, real[len(progs):]):
         res, tr = parse_eval(r[1] if len(r) > 1 else '')
         out = (tr or {}).get('out')
         if out != expected_out or not res or len(res) != 2 or res[1][:2] != ('ok', 'default'):
             failures.append({'expression': p, 'expected_output': expected_out, 'real_output': out, 'real': str(res)[:200],
                              'problem': 'define / undefine inside a loaded module: define overwrote, failed to signal, or undefine did not remove exactly that name'})
+    for (p, expected), r in zip(vseq, real[len(progs) + len(mprogs):]):
+        res, _ = parse_eval(r[1] if len(r) > 1 else '')
+        got = [(k, pr if k == 'ok' else ('already-defined' if 'already-defined' in pr else pr)) for (k, pr, _) in (res or [])]
+        if got != expected:
+            i = next((j for j in range(min(len(got), len(expected))) if got[j] != expected[j]), min(len(got), len(expected)))
+            failures.append({'expression': p, 'form_index': i, 'form': p.split('\n')[i] if i < len(p.split('\n')) else None,
+                             'expected': list(expected[i]) if i < len(expected) else None, 'real': list(got[i]) if i < len(got) else None,
+                             'problem': 'a global of `default` looked up from `default` or from a function of another module does not follow define / undefine'})
     for p, r in zip(progs, real):
         res, trailer = parse_eval(r[1] if len(r) > 1 else '')
         forms = p.split('\n')
@@ -1671,7 +1756,9 @@ spec('C11', correspond=c11_correspond, replay=c11_replay, modules=['C11', 'C11b'
 
 def c09_forms(rng, n):
     forms = []
-    inline = ["(((macro () 'when)) t 5)", "(((macro () 'when)) nil (signal 'operand-was-evaluated))", "(((macro (p) (if p 'and 'or)) t) nil 7)", "(((macro (p) (if p 'and 'or)) nil) nil 7)",
+    inline = ["((macro (op a b) (list op a b)) and 1 2)", "((macro (op a b) (list op a b)) when nil (signal 'operand-was-evaluated))", "(eval (list when 1 2))", "(eval (list or nil 3))",
+              "((lambda (x) ((macro (op a) (list op a 7)) when x)) 1)", "(list ((macro (op) (list op 1)) not) 2)",
+              "(((macro () 'when)) t 5)", "(((macro () 'when)) nil (signal 'operand-was-evaluated))", "(((macro (p) (if (= p 'yes) 'and 'or)) yes) nil 7)", "(((macro (p) (if (= p 'yes) 'and 'or)) no) nil 7)",
               "(list (((macro () 'not)) nil) 1)", "((lambda (x) (((macro () 'when)) x 'yes)) 1)", "((macro (x) (list 'quote x)) (try 1))",
               "((macro (a b) (list 'add a b)) 1 2)", "((macro (& xs) (cons 'list xs)) 1 2 3)", "((lambda (x) (when x 1)) 1)", "((lambda (x) (when x (or nil x))) 7)",
               "'(when t 1)", "(list '(and 1 2) (and 1 2))", "(quote (let (x 1) x))", "((if t (lambda (q) (not q)) car) nil)", "(let (f (lambda (v) (case ((= v 1) 'one) ((= v 2) 'two) (t 'many)))) (list (f 1) (f 2) (f 3)))",
@@ -1684,6 +1771,24 @@ def c09_forms(rng, n):
         ty = rng.choice(['int', 'int', 'list', 'bool', 'any'])
         forms.append(g.expr(ty, [], 0))
     return forms
+
+# macro calls whose value is known outright: a macro object or a macro name arriving in operator position through a macro result
+C09_EXPECTED = {
+    "((macro (op a b) (list op a b)) and 1 2)": '2',
+    "((macro (op a b) (list op a b)) when nil (signal 'operand-was-evaluated))": '()',
+    "(eval (list when 1 2))": '2',
+    "(eval (list or nil 3))": '3',
+    "((lambda (x) ((macro (op a) (list op a 7)) when x)) 1)": '7',
+    "(list ((macro (op) (list op 1)) not) 2)": '(() 2)',
+    "(((macro () 'when)) t 5)": '5',
+    "(((macro () 'when)) nil (signal 'operand-was-evaluated))": '()',
+    "(((macro (p) (if (= p 'yes) 'and 'or)) yes) nil 7)": '()',
+    "(((macro (p) (if (= p 'yes) 'and 'or)) no) nil 7)": '7',
+    "(list (((macro () 'not)) nil) 1)": '(t 1)',
+    "((lambda (x) (((macro () 'when)) x 'yes)) 1)": 'yes',
+    "((macro (a b) (list 'add a b)) 1 2)": '3',
+    "((lambda (x) (when x 1)) 1)": '1',
+}
 
 def c09_correspond(run, rng, tier):
     forms = c09_forms(rng, 700 if tier == 'quick' else 12000)
@@ -1717,7 +1822,10 @@ def c09_correspond(run, rng, tier):
         a, b, c2, c1, d = (strip_dump(r[i]) for i in (1, 2, 3, 4, 5))
         kind = a[0][0][0] if a and a[0] else '?'
         dist[{'ok': 'value', 'sig': 'signal', 'abort': 'abort'}.get(kind, 'signal')] += 1
-        if a != b:
+        if x in C09_EXPECTED and (not a or not a[0] or a[0][0] != ('ok', C09_EXPECTED[x])):
+            failures.append({'expression': x, 'expected': C09_EXPECTED[x], 'real': str(a[0][0] if a and a[0] else a)[:300],
+                             'problem': 'a macro call was not expanded and evaluated in place of the call (the macro received evaluated operands, or its result came back as data)'})
+        elif a != b:
             failures.append({'expression': x, 'problem': 'evaluating the form and evaluating its expansion differ', 'eval': str(a)[:300], 'eval_of_expansion': str(b)[:300]})
         elif a != d:
             failures.append({'expression': x, 'problem': '(eval (quote x)) and x typed at top level differ', 'eval': str(a)[:300], 'direct': str(d)[:300]})
@@ -2265,6 +2373,13 @@ def c16_cases(rng, tier):
     m("(try (tag 1 5) (catch-all (lambda (e) (tag 2 'caught))))", '5', [1])
     m("(try (block (tag 1 1) (throw 'kind 'boom 'source 'here) (tag 2 2)) (catch other (lambda (e) (tag 3 'wrong))) (catch boom (lambda (e) (tag 4 (. e 'source)))) (catch-all (lambda (e) (tag 5 'all))))", 'here', [1, 4])
     m("(try (signal 'plain) (catch boom (lambda (e) 'wrong)) (catch-all (lambda (e) (tag 1 e))))", 'plain', [1])
+    # apply with a variadic closure that captured a variable of its maker, applied where that name is unbound / rebound
+    m("(apply ((lambda (k) (lambda (& r) (map (lambda (x) (add x k)) r))) 10) (list 1 2 3))", '(11 12 13)', [])
+    m("(let (k 1) (apply ((lambda (k) (lambda (& r) (map (lambda (x) (add x k)) r))) 10) (list 1 2 3)))", '(11 12 13)', [])
+    m("((lambda (who) (apply ((lambda (who) (lambda (& r) (cons who r))) 'maker) (list 1 2))) 'caller)", '(maker 1 2)', [])
+    m("(apply (lambda (& r) (tag 1 r)) (list 1 2))", '(1 2)', [1])
+    m("(apply + (list 1 2 3))", '6', [])
+    m("(apply concat (list (list 1) (list 2 3)))", '(1 2 3)', [])
     # known finding: apply on a fixed-arity function
     cases.append(('(apply add (list 1 2))', ('ok', '3', ''), 'F20-apply-fixed-arity'))
     cases.append(('(apply cons (list 1 2))', ('ok', '(cons 1 2)', ''), 'F20-apply-fixed-arity'))
